@@ -68,6 +68,7 @@ retry loop; `var` becomes an input; more than one writer is refused).
 `region="loop_iter"`: ONE iteration of the single top-level `while (c) body`: the kernel is
 `if (c) body`, with the extra Bool output `loop_again` = `c` held and the body ran to its end
 (`false` when `c` fails or the body leaves through `break`; `continue` is unsupported).
+`keep=[locals]`: local variables reported as outputs all the same (`r` of `uv_run`).
 `havoc_loops=True`: a loop nested in the kernel is abstracted: each variable it assigns gets an
 unknown value (input `havoc_<var>_<n>`), calls inside it are left out.  `trace_calls=[f…]`: call
 statements to these callees are left out but recorded, in program order and with their
@@ -175,6 +176,7 @@ KERNELS = [
     # C17 inotify: event classification of one record, the mask uv_fs_event_start registers (use `|` on literals)
     dict(name="inotify_events", group="C17", file="src/unix/linux.c", func="uv__inotify_read", slice=["events"]),
     dict(name="fs_event_start_mask", group="C17", file="src/unix/linux.c", func="uv_fs_event_start", slice=["events"]),
+    dict(name="compare_watchers", group="C17", file="src/unix/linux.c", func="compare_watchers"),
     # C13 tree order and the decisions of uv__signal_start (lock/tree calls dropped)
     dict(name="signal_compare", group="C13", file="src/unix/signal.c", func="uv__signal_compare"),
     dict(name="signal_start", group="C13", file="src/unix/signal.c", func="uv__signal_start",
